@@ -287,3 +287,13 @@ def linear_terms(e, sign=1, out=None):
     else:
         out.append((sign, e))
     return out
+
+
+def safe_expand(fa, e, at=None):
+    """FA.expand, or `e` itself where it sits in code the explicit-edge CFG cannot reach (e.g. a handler of a try body
+    that cannot raise): nothing is known about locals there."""
+    ids = fa.nodes(at if at is not None else e)
+    try:
+        return fa.expand(e, ids[0]) if ids else e
+    except AnalysisError:
+        return e
